@@ -200,6 +200,14 @@ def case_ds(ctx, case, be=None, x=None):
     else:
         ctx.oracle(True, what, case)
     c1 = coords_of(y)
+    if how == 'simple':
+        # `x.simple` is the skeleton reduced to its roots, leafs and branch points — a soma on a slab node must NOT survive
+        # (the copy's soma is cleared before the walk), and the cached result carries no soma
+        want, got = topo_fix(pm0), sorted(parent_map(y))
+        ctx.count('simple_soma', 'none' if x.soma is None else ('slab' if any(int(v) not in want for v in np.atleast_1d(x.soma)) else 'anchor'))
+        ctx.oracle(got == want, f'{what}: x.simple keeps the nodes {sorted(set(got) - set(want))[:6]} that are neither root, leaf nor branch point '
+                   f'and lacks {sorted(set(want) - set(got))[:6]} (soma of x: {x.soma})', case)
+        ctx.oracle(y.soma is None, f'{what}: x.simple carries a soma ({y.soma})', case)
     ctx.oracle(all(i in c0 and c0[i] == c1[i] for i in c1), f'{what}: a kept node changed id/coordinates/radius', case)
     w = ctx.ask('f.wf ' + G.wire_neuron(y))
     ctx.oracle(w == '1 1', f'{what}: result is not a well-formed, correctly labelled forest ({w})', case)
@@ -793,6 +801,9 @@ def gen_targeted(ctx):
                 d = dict(rows=rows, f=f, pres=r.choice([None, [], [r.choice(ids)]]), meta=meta, how=r.choice(['func', 'method', 'inplace']), soma=tgt)
                 yield ('ds', d)
             yield ('ds', dict(rows=rows, f=r.choice([3, 4, 'inf']), pres=[tgt], presform=r.choice(['list', 'set', 'array']), meta=meta, soma_none=True))
+            # `x.simple` with a soma on a slab node: pinned id / found by the default radius detection (one node with radius > 1 µm)
+            yield ('ds', dict(rows=rows, f='inf', pres=None, how='simple', meta=meta, soma=tgt))
+            yield ('ds', dict(rows=rows, f='inf', pres=None, how='simple', meta=meta, radii={str(i): ('3000' if i == tgt else '1/64') for i in ids}))
         if 0 in sl:
             for f in (2, 3, 'inf'):
                 yield ('ds', dict(rows=rows, f=f, pres=None, meta=meta, soma_none=True))
@@ -940,7 +951,7 @@ def run(ctx, be=None):
     ctx.extra['rule'] = ('forests from harness/gen.py (integer coordinates, integer edge lengths, zero-length edges in every 4th case); a case = '
                          '(forest, downsample factor/preserve set/soma) or (forest, resolution, radii, soma/connectors/tags, method); resolutions '
                          'are drawn so that exact ties total == res and total/res = m + 1/2 occur; targeted second-pass stream: soma / preserved node / '
-                         'node id 0 on slab nodes with out-of-phase factors, float / numpy / <= 1 / default factors, preserved ids not in the table, '
+                         'node id 0 on slab nodes with out-of-phase factors, `x.simple` with a pinned / radius-detected soma on a slab node, float / numpy / <= 1 / default factors, preserved ids not in the table, '
                          'NeuronLists, array somas, exact re-attachment ties (old node half-way between two new nodes), every subset of '
                          '{soma, connectors, tags}, numeric + categorical mapped columns, 7 non-linear methods × skip_errors × coincident nodes, '
                          'resolution above every segment length, unit strings on nm / 8 nm / µm neurons, 2–3-step in-place histories, single / isolated '
